@@ -65,11 +65,12 @@ func (d *driver) replayOf(e *Exchange, ci crashInfo) map[string]any {
 		"listener": e.Seed.Listener, "seed": e.Seed.Name, "transport": e.Seed.Transport, "port_index": e.Seed.Port,
 		"mutation": e.Mut.String(), "exchange_id": e.ID, "tier": d.r.Tier, "messages": msgs, "then": "half-close / close",
 		"worker_configuration": e.Seed.kind(d.r.Thorough()).String(),
-		"crash": ci.Text, "exit": ci.Exit,
+		"crash":                ci.Text, "exit": ci.Exit,
 		"how": "start the harness binary with -worker -base <port> -dir <tmpdir>" + map[bool]string{true: " -world open (anonymous clients may read the path 'live', which has a live stream, and publish below 'pub/')"}[e.Seed.Open] +
 			", send the messages in order to 127.0.0.1:<port+port_index>" +
 			map[bool]string{true: "; placeholders (" + echoNames(e.Seed) + ") are replaced by what the server answered before, as a client does"}[len(e.Seed.Echo) > 0] +
-			map[bool]string{true: "; SRT: bytes 44..47 of the conclusion are replaced by the cookie of the server's induction answer before the mutation is applied", false: ""}[e.Seed.Transport == tSRT],
+			map[bool]string{true: "; SRT: bytes 44..47 of the conclusion are replaced by the cookie of the server's induction answer before the mutation is applied", false: ""}[e.Seed.Transport == tSRT] +
+			map[bool]string{true: " and, in the open world, bytes 40..43 of both packets (the client's socket id) by a value unique to the exchange"}[e.Seed.Transport == tSRT && e.Seed.Open],
 	}
 }
 
@@ -174,6 +175,9 @@ func (l *lane) runSet2(set []*Exchange, o execOpts, count bool) (bool, []bool) {
 	// datagram transports have no flow control: a burst overflows the listener's backlog (gosrt: 128 packets) and the
 	// packet would be dropped unseen, so they are delivered with a small concurrency
 	semUDP := make(chan struct{}, 40)
+	// SRT connections that the server accepts (open world) each reserve ~128 MB of address space in gosrt: few at a
+	// time, so that the worker's address space limit keeps measuring what one input makes the server allocate
+	semSRTOpen := make(chan struct{}, 12)
 	udpLike := false
 	var cmu sync.Mutex
 	local := map[string]int{}
@@ -195,6 +199,9 @@ func (l *lane) runSet2(set []*Exchange, o execOpts, count bool) (bool, []bool) {
 		if e.Seed.Transport != tTCP && e.Seed.Transport != tTLS {
 			udpLike = true
 			mySem = semUDP
+			if e.Seed.Transport == tSRT && e.Seed.Open {
+				mySem = semSRTOpen
+			}
 		}
 		mySem <- struct{}{}
 		wg.Add(1)
@@ -492,8 +499,8 @@ func driverMain() {
 	if *flagOnly != "" {
 		var f []*Seed
 		for _, s := range seeds {
-			if strings.Contains(s.Listener+"/"+s.Name, *flagOnly) {
-				f = append(f, s)
+			if neg := strings.TrimPrefix(*flagOnly, "!"); (neg == *flagOnly) == strings.Contains(s.Listener+"/"+s.Name, neg) {
+				f = append(f, s) // "-only !x" = every seed but those containing x
 			}
 		}
 		seeds = f
@@ -526,7 +533,7 @@ func driverMain() {
 			}
 			if m.Kind == mSeed {
 				phase0 = append(phase0, e)
-			} else {
+			} else if *flagMut == "" || strings.Contains(m.String(), *flagMut) {
 				mine = append(mine, e)
 			}
 		})
@@ -739,9 +746,12 @@ func driverMain() {
 			dialByListener[strings.SplitN(k, "|", 2)[0]] += n
 		}
 	}
-	r.Rule = "case = (listener, valid unauthenticated seed exchange, one single deviation: truncation at an offset | one byte set to a value of the byte alphabet | " +
-		"one length-like field set to a boundary value | one header line duplicated/emptied/deleted | two messages swapped | none); " +
-		"distinct = (listener, seed, mutation kind, answer class of the server: status codes / handshake stage / answer size)"
+	r.Rule = "case = (world: closed = nobody is authorized | open = anonymous clients may read a path with a live two-track stream and publish below a prefix; " +
+		"listener; valid seed exchange of a client without credentials; one single deviation: truncation at an offset | one byte set to a value of the byte alphabet | " +
+		"one length-like field set to a boundary value | one header line duplicated/emptied/deleted | two messages swapped | one message sent twice | " +
+		"structure-aware: one AMF0 value of an RTMP command/data message replaced by each value of a typed alphabet (" + fmt.Sprint(len(amfAlphabet)) + " values: numbers, bool, strings, null, undefined, " +
+		"objects, ECMA array, strict arrays empty/of object/nested, date, long string, reference), removed or repeated | none); " +
+		"distinct = (listener, seed, mutation kind, answer class of the server: status codes / handshake stage / answer size / streaming)"
 	r.Set("seeds", len(seeds))
 	r.Set("exchanges_enumerated", total)
 	r.Set("per_listener", d.perListen)
@@ -768,7 +778,9 @@ func driverMain() {
 	}
 	r.Assumptions = []string{
 		"exhaustive only over the stated single-deviation mutation alphabet applied to the listed seed exchanges; not over all byte streams",
-		"no client is authorized: the only configured user has a secret the driver never sends",
+		"closed world: no client is authorized (the only configured user has a secret the driver never sends); open world: clients without credentials may read the path 'live' " +
+			"(kept live by an RTSP publisher inside the worker: H264 + Opus, 10 frames/s) and publish/read below 'pub/'; API, metrics, pprof and playback need the secret in both",
+		"values a client takes from the server's answers (RTSP session id, HLS session/playlist/segment names, WHIP/WHEP session URL, SRT cookie) are echoed into the following messages; the MIKEY message of SRTP SETUPs carries the current time",
 		"the server runs with GOMAXPROCS=4 and RLIMIT_AS " + fmt.Sprint(workerMem) + " MB; a death by memory exhaustion under that limit is reported as a crash",
 		"QUIC/TLS/DTLS record-level malformation is not enumerated (it exercises quic-go / crypto/tls / pion, only complete non-QUIC datagrams are sent to those sockets); MoQ messages are mutated inside real QUIC and WebTransport streams",
 		"RTSP multicast is not enabled (no multicast-capable interface is assumed)",
